@@ -14,6 +14,8 @@ speculative-execution plan, retry policy, clock.  One history op = one call into
   ['nextpage', [hosts]]            future.start_fetching_next_page() with a fresh query plan
   ['addcb']                        future.add_callbacks(cb_k, eb_k)
   ['result']                       future.result() (only when it would not block)
+  ['shutdown']                     Session.shutdown() has set session.is_shutdown (the REAL Session.submit then refuses work)
+  ['refresh', k]                   the executor runs the k-th queued refresh_schema_and_set_result (after a SCHEMA_CHANGE answer)
   ['ksreport', c, h, err]          pool h reports the outcome of its internal USE to keyspace propagation c (started by a
                                    SET_KEYSPACE answer through the REAL Session._set_keyspace_for_all_pools)
 
@@ -90,7 +92,7 @@ class FakeConn(object):
         assert request_id == self.world.next_req == len(self.world.attempts)
         self.world.next_req += 1
         self._requests[request_id] = (cb, decoder, result_metadata)
-        self.world.attempts.append((self.host.i, request_id))
+        self.world.attempts.append((self.host.i, request_id, self.world.f._page_no))
         self.world.sent.append((self.host.i, getattr(msg, 'paging_state', None)))
         return 10
 
@@ -243,6 +245,7 @@ class World(object):
         self.epoch_start = self.now
         self.timed_out = False
         self.result_log = []
+        self.refreshes = []      # queued refresh_schema_and_set_result tasks
         self.chains = []         # keyspace propagations: {'cb': closure of the real Session method, 'waiting': {host: pool}, 'err': bool}
         self.swallowed = []      # exceptions that escaped into the (fake) reactor / executor, which log and go on
         self.session = Obj()
@@ -251,16 +254,20 @@ class World(object):
         s.keyspace = None
         s.is_shutdown = False
         s._pools = PoolMap(self)
-        s.submit = self._submit
+        s.submit = types.MethodType(cl.Session.submit, s)      # the real method: refuses (returns None) once shut down
         s._lock = threading.RLock()
         s._set_keyspace_for_all_pools = types.MethodType(cl.Session._set_keyspace_for_all_pools, s)
         s.cluster = Obj()
+        s.cluster.executor = Obj()
+        s.cluster.executor.submit = self._submit
         s.cluster.connection_class = FakeConnectionClass(self)
         s.cluster._default_load_balancing_policy = FakeLB(self)
         s.cluster.protocol_version = 4
         s.cluster._prepared_statements = {}
         s.cluster.control_connection = Obj()
         s.cluster.control_connection._connection = None
+        s.cluster.control_connection._refresh_schema = lambda connection, **kw: True
+        s.cluster.control_connection.refresh_schema = lambda **kw: True
         from cassandra.protocol import QueryMessage
         from cassandra.query import SimpleStatement
         self.policy = FakeRetryPolicy(self)
@@ -289,7 +296,12 @@ class World(object):
         return self.hosts[i]
 
     def _submit(self, fn, *a, **kw):
-        self.queue.append((fn, a, kw))
+        """cluster.executor.submit: retry tasks and schema refreshes are kept apart (the model has two queues)"""
+        if fn is cluster_mod().refresh_schema_and_set_result:
+            self.refreshes.append((fn, a, kw))
+        else:
+            self.queue.append((fn, a, kw))
+        return object()
 
     # ------------------------------------------------------------------ responses
     def make_response(self, a, kind, arg, cls):
@@ -305,6 +317,10 @@ class World(object):
             return r
         if kind == 'void':
             return P.ResultMessage(P.RESULT_KIND_VOID)
+        if kind == 'schema':
+            r = P.ResultMessage(P.RESULT_KIND_SCHEMA_CHANGE)
+            r.schema_change_event = {'target_type': 'KEYSPACE', 'change_type': 'CREATED', 'keyspace': 'ks%d' % a}
+            return r
         if kind == 'setks':
             r = P.ResultMessage(P.RESULT_KIND_SET_KEYSPACE)
             r.new_keyspace = 'ks%d' % a
@@ -368,6 +384,8 @@ class World(object):
             return 3
         if 'Failed to set keyspace on all hosts' in str(e):
             return 4
+        if 'Session is shut down' in str(e):
+            return 5
         m = re.search(r'att=(\d+)', str(e)) or re.search(r'att=(\d+)', repr(e))
         if m:
             return 10 + int(m.group(1))
@@ -376,7 +394,7 @@ class World(object):
     # ------------------------------------------------------------------ enabledness (read from the fakes)
     def open_attempts(self):
         out = []
-        for a, (h, rid) in enumerate(self.attempts):
+        for a, (h, rid, pg) in enumerate(self.attempts):
             p = self.session._pools.pools.get(h)
             if p is not None and rid in p.conn._requests:
                 out.append(a)
@@ -419,7 +437,7 @@ class World(object):
                 a, kind, arg, cls = op[1], op[2], op[3], op[4]
                 if a not in self.open_attempts():
                     return False
-                h, rid = self.attempts[a]
+                h, rid, _pg = self.attempts[a]
                 cb, _, _ = self.session._pools.pools[h].conn._requests.pop(rid)
                 if kind == 'retry':
                     self.next_decision = arg
@@ -437,6 +455,15 @@ class World(object):
                     return False
                 fn, a, kw = self.queue.pop(op[1])
                 self._guarded(fn, *a, **kw)      # the exception would stay in the executor's Future
+                return True
+            if k == 'shutdown':
+                self.session.is_shutdown = True
+                return True
+            if k == 'refresh':
+                if not (0 <= op[1] < len(self.refreshes)):
+                    return False
+                fn, a, kw = self.refreshes.pop(op[1])
+                self._guarded(fn, *a, **kw)
                 return True
             if k == 'ksreport':
                 c, h, err = op[1], op[2], op[3]
@@ -486,7 +513,7 @@ class World(object):
             a, kind, arg, cls = op[1], op[2], op[3], op[4]
             if a not in self.open_attempts():
                 return None
-            h, rid = self.attempts[a]
+            h, rid, _pg = self.attempts[a]
             cb, _, _ = self.session._pools.pools[h].conn._requests.pop(rid)
             if kind == 'retry':
                 self.next_decision = arg
@@ -531,8 +558,8 @@ class World(object):
             o += [t.kind, t.due, int(t.canceled), int(t.fired)]
         o += [len(self.queue), len(self.attempts)]
         op = set(self.open_attempts())
-        for a, (h, rid) in enumerate(self.attempts):
-            o += [h, int(a in op)]
+        for a, (h, rid, pg) in enumerate(self.attempts):
+            o += [h, int(a in op), int(pg != f._page_no)]
         o += [f._current_host.i if f._current_host is not None else -1,
               f._connection.host.i if f._connection is not None else -1,
               f._req_id if f._req_id is not None else -1,
@@ -541,7 +568,7 @@ class World(object):
             o += [len(p['cb']), len(p['eb']), p['cb'][-1] if p['cb'] else 0, p['eb'][-1] if p['eb'] else 0]
         last = self.result_log[-1] if self.result_log else (-1, 0)
         o += [len(self.result_log), last[0], last[1]]
-        o += [len(self.swallowed), len(self.chains)]
+        o += [len(self.swallowed), int(bool(self.session.is_shutdown)), len(self.refreshes), len(self.chains)]
         for ch in self.chains:
             hs = sorted(ch['waiting'])
             o += [len(hs), int(ch['err'])] + hs
